@@ -213,11 +213,10 @@ def fix_nontrivial(hist):
 
 
 def fix_signature(hist, i, clause, observed):
-    """One defect, one signature: clause, the call it failed at, what composition calls came before (as a set), the
-    exception class when the call raised; for the run: fixture kind and what ended the run."""
+    """One defect, one signature: clause, the call it failed at, whether a sort_tests came before, the exception class
+    when the call raised; for the run: what ended the run."""
     a = hist[i]["a"]
-    before = sorted({h["a"] for h in hist[1:i] if h["a"] in ("sort_tests", "filter_by_ids")})
-    ctx = ("-after-" + "+".join(before)) if before else ""
+    ctx = "-after-sort_tests" if any(h["a"] == "sort_tests" for h in hist[1:i]) else ""
     if clause == "raised":
         what = "iterate_tests" if " at iterate_tests" in str(observed) else a
         return "x13:fixsuite:raised:%s%s:%s" % (what, ctx, str(observed).split(" ", 1)[0])
@@ -225,7 +224,7 @@ def fix_signature(hist, i, clause, observed):
         init = hist[0]["arg"]
         ran = [h["arg"] for h in hist[: i + 1] if h["a"] == "run:test"]
         enders = sorted({init["kind"][t - 1] for t in ran if init["kind"][t - 1] in ("stop", "interrupt")})
-        return "x13:fixsuite:%s:%s:%s%s" % (clause, init["fix"], "+".join(enders) or "to-the-end", ":prestop" if hist[0]["stop"] else "")
+        return "x13:fixsuite:%s:%s" % (clause, "prestop" if hist[0]["stop"] else ("+".join(enders) or "to-the-end"))
     return "x13:fixsuite:%s:%s%s" % (clause, a, ctx)
 
 
@@ -305,9 +304,16 @@ class World:
         self.T = T
 
         class Rec(TestResultDecorator):
+            """A result of its own in front of the thread-safe one: it has its OWN shouldStop, set by its stop()."""
+
             def __init__(self, decorated, w):
                 super().__init__(decorated)
                 self.w = w
+                self._own_stop = False
+
+            @property
+            def shouldStop(self):
+                return self._own_stop
 
             def startTest(self, test):
                 world.seen[self.w].append(int(test.id().rsplit("_", 1)[1]))
@@ -315,11 +321,8 @@ class World:
 
             def stop(self):
                 world.stops[self.w] += 1
+                self._own_stop = True
                 return super().stop()
-
-            @property
-            def shouldStop(self):
-                return self.decorated.shouldStop
 
         self.Rec = Rec
 
@@ -362,8 +365,9 @@ class World:
             return list(self.runnables)
 
         def wrap(thread_safe_result, number):
-            self.wrap_calls.append((thread_safe_result, number))
+            # the main thread may arrive here early; the call counts from the moment the behaviour lets it through
             cmd = self.wrapgates[number].wait_cmd() if 0 <= number < nw else "go"
+            self.wrap_calls.append((thread_safe_result, number))
             if cmd == "raise":
                 raise WrapError("wrap_result raises for worker %d" % number)
             obj = Rec(thread_safe_result, number) if self.kind == "decorate" else thread_safe_result
@@ -404,6 +408,7 @@ def replay_wrap(hist):
     w = World(init)
     nw = len(w.plan)
     worker_of = {n: k for k, numbers in enumerate(w.plan) for n in numbers}
+    exited = set()
     try:
         for i, h in enumerate(hist[1:], 1):
             a = h["a"]
@@ -441,7 +446,9 @@ def replay_wrap(hist):
             else:
                 raise tlc.MachineryError("X13: unknown action %r" % a)
             # ---- observation after the step
-            if h["mpc"] in ("spawn", "join") and w.finished.is_set() and nw:
+            if a == "exit":
+                exited.add(k)
+            if h["mpc"] in ("spawn", "join") and len(exited) < nw and w.finished.is_set():
                 return (i, "run-returns-only-when-workers-are-done", "running", "returned: %r" % (w.error,))
             # wrap calls: one per started worker, numbered in make_tests order, given a thread-safe result
             exp_calls = [c[0] for c in h["wrapcalls"] if c]
@@ -469,13 +476,8 @@ def replay_wrap(hist):
             got_target = [[worker_of[n] + 1, n] for n in w.target_ids()]
             if got_target != h["target"]:
                 return (i, "result-sees-every-test", h["target"], got_target)
-            if w.kind == "decorate":
-                if w.stops != h["stops"]:
-                    return (i, "abort-stops-wrapped-results", h["stops"], w.stops)
-            elif w.Target.stop_calls != sum(h["stops"]):
-                return (i, "abort-stops-wrapped-results", sum(h["stops"]), w.Target.stop_calls)
-            if bool(w.target.shouldStop) != h["tstop"]:
-                return (i, "abort-sets-should-stop", h["tstop"], bool(w.target.shouldStop))
+            # D3 is judged where the worker looks at shouldStop of the result it runs with (the "exit" steps above); how
+            # often stop() is called and on which other objects is not documented
         return None
     finally:
         w.release_all()
@@ -531,13 +533,15 @@ def run(tier, pid="X13"):
     rep.assume("KeyboardInterrupt in a test together with a raising cleanUp: either exception may leave run()")
     rep.assume("workers are gate-controlled runnables that run one test per step and honour shouldStop as the docstring asks of make_tests; the order in which finished workers are joined is not observable and explored in worker order only")
     jobs = [
-        ("MCFixSuite", "fs_mcA.cfg", None, FS_ACTIONS),
         ("MCFixSuite", "fs_mcB.cfg", None, FS_ACTIONS),
         ("MCFixSuite", "fs_expA.cfg", "fix", FS_ACTIONS),
         ("MCFixSuite", "fs_expB.cfg", "fix", FS_ACTIONS),
         ("MCWrapResult", "wr_mc.cfg", None, ["Spawn", "Abort"]),
-        ("MCWrapResult", "wr_exp.cfg", "wrap", ["Spawn", "Abort"]),
+        ("MCWrapResult", "wr_exp.cfg" if tier == "quick" else "wr_expT.cfg", "wrap", ["Spawn", "Abort"]),
     ]
+    if tier != "quick":
+        # four composition calls deep (the quick tier's fs_expA.cfg checks the same invariants three calls deep)
+        jobs.insert(0, ("MCFixSuite", "fs_mcA.cfg", None, FS_ACTIONS))
     for module, cfg, part, actions in jobs:
         r = tlc.run_tlc("extra", module, cfg, coverage=True, timeout=600, workers=4)
         tlc.require_ok(r, "X13 " + cfg)
